@@ -29,7 +29,6 @@ from typelib.py import classes, compat, inspection, refs
 __all__ = ("static_order", "itertypes", "get_type_graph")
 
 
-@compat.cache
 def static_order(
     t: type | str | refs.ForwardRef | compat.TypeAliasType,
 ) -> typing.Sequence[TypeNode]:
@@ -55,7 +54,15 @@ def static_order(
         t = refs.evaluate(ref)
         return static_order(t)
 
-    return [*itertypes(t)]
+    # The nodes are memoized: every caller gets its own list.
+    return [*_static_order(t)]
+
+
+@compat.cache
+def _static_order(
+    t: type | compat.TypeAliasType,
+) -> tuple[TypeNode, ...]:
+    return (*itertypes(t),)
 
 
 def itertypes(
